@@ -211,6 +211,34 @@ def observe(seed, tier):
             lines = [byname[x["flow"]].model_line() + " # " + " ".join("%s=%s" % (k, "panic" if v.startswith("panic") else v) for k, v in sorted(x["scenario"].items()))
                      for x in runs_b]
             preds = common.model_run("flowobs", lines)
+            # the job graph of the modifier-mode implementation functions must contain the model's
+            modtext = ""
+            for fn in sorted(os.listdir(gdirm)):
+                if fn.endswith("_gen.go"):
+                    modtext += open(os.path.join(gdirm, fn)).read() + "\n"
+            regions = {}
+            parts = re.split(r"^func (\w+)\(", modtext, flags=re.M)
+            for i in range(1, len(parts), 2):
+                regions[parts[i]] = parts[i + 1]
+            seen = set()
+            for xb, pred in zip(runs_b, preds):
+                fl = byname[xb["flow"]]
+                if fl.name() in seen:
+                    continue
+                seen.add(fl.name())
+                m = re.search(r"(_cffFlow\w+)\(", regions.get(fl.name(), ""))
+                impl = regions.get(m.group(1), "") if m else ""
+                got = gen_common.parse_job_graph(impl, fl)
+                want = {}
+                for ent in pred.rsplit("JOBS=", 1)[1].split(";"):
+                    if ent:
+                        j, ds = ent.split(":")
+                        want[j] = sorted(set(d for d in ds.split(",") if d))
+                count("modifier_job_graphs")
+                missing = {j: sorted(set(want[j]) - set(got.get(j, []))) for j in want if j not in got or set(want[j]) - set(got.get(j, []))}
+                if missing:
+                    hit("C20", "modifier-mode code of %s omits dependencies the dataflow needs (job: missing providers) %s" % (fl.name(), missing),
+                        {"flow": fl.model_line(), "go_function": fl.name(), "generated": got, "model": want, "module": modm})
             for xb, xm, pred in zip(runs_b, runs_m, preds):
                 count("modifier_differential_executions")
                 f = byname[xb["flow"]]
